@@ -449,6 +449,9 @@ def apply_params(sig, posargs, pokargs, varargs, kwoargs, varkwargs,
     if sources is not None:
         sig = Signature._upgrade(sig, function, sources, _stacklevel=1)
         sig.sources = sources
+    else:
+        # replace() hands over the very map of the signature it copies
+        sig.sources = copy_sources(sig.sources)
     return sig
 
 
